@@ -89,5 +89,5 @@ def units():
              'registers.Registers.get', 'registers.Registers.set', 'registers.Registers.get_spsr',
              'registers.Registers.set_spsr']
     return [Unit('banking', thms, ['Proofs/BankProofs.v'], needs, bank_cases, IMPORTS, SPEC_IMPORTS),
-            Unit('range_search', ['C10_dp_range', 'C10_ictx_values'], ['Proofs/DPRange.v', 'Proofs/StepDP.v'], [], range_cases, IMPORTS,
+            Unit('range_search', ['C10_dp_range', 'C10_ictx_values', 'C10_dp_cpsr_low'], ['Proofs/DPRange.v', 'Proofs/StepDP.v'], [], range_cases, IMPORTS,
                  'From Coq Require Import ZArith List.')]
